@@ -19,6 +19,7 @@ Kind(name, id) ==
       [] name = "sig_out"     -> Fast(id, "signal", 0, None, "stdout", "stdout", "match")
       [] name = "err_pass"    -> Fast(id, "exit", 0, None, "both", "stderr", "match")
       [] name = "err_empty"   -> Fast(id, "exit", 0, None, "stdout", "stderr", "none")
+      [] name = "err_unexp"   -> Fast(id, "exit", 0, None, "stderr", "stderr", "none")      \* nothing expected, nothing on stdout, text on the chosen stream
       [] name = "comb_pass"   -> Fast(id, "exit", 0, None, "both", "combined", "match")
       [] name = "quiet"       -> Fast(id, "exit", 0, None, "none", "stdout", "none")
       [] name = "unexpected"  -> Fast(id, "exit", 0, None, "stdout", "stdout", "none")
@@ -36,7 +37,7 @@ Plain(docs) == Run(docs, None, <<>>, <<>>, "cli", FALSE)
 
 \* ---- C05
 C05Kinds == {"pass", "pass3", "pass255", "failout", "failcode", "failcodeexp", "failboth", "sig_noexp", "sig_out",
-             "err_pass", "err_empty", "comb_pass", "quiet", "unexpected", "det"}
+             "err_pass", "err_empty", "err_unexp", "comb_pass", "quiet", "unexpected", "det"}
 CramC05  == {"pass", "pass3", "failout", "failcode", "failcodeexp", "failboth", "quiet", "unexpected"}
 ScenC05(u) == {Plain(<<Md(MkTests(1, names))>>) : names \in SeqsOf(C05Kinds, 1, 3)}
            \cup {Plain(<<Cram(MkCram(1, names))>>) : names \in SeqsOf(CramC05, 1, 2)}
